@@ -35,6 +35,10 @@ class Inconclusive(Exception):
     pass
 
 
+class StreamDivergence(Exception):
+    """Two runs meant to share one random stream consumed it differently."""
+
+
 # --------------------------------------------------------------------------
 # context
 
@@ -175,6 +179,17 @@ class Ctx:
 
     def draw(self, kind, shape=(), **params):
         """A scripted random draw: fresh symbols constrained to the support."""
+        rp = getattr(self, '_replay_pos', None)
+        if rp is not None and rp < len(self.draws):
+            # second run on the same random stream: hand out the recorded draws again, in order
+            old = self.draws[rp]
+            self._replay_pos = rp + 1
+            shp = tuple(int(s_) for s_ in np.atleast_1d(shape)) if shape != () else ()
+            if old.get('base', old['kind']) != kind or tuple(old['shape']) != shp:
+                self.stream_divergence = getattr(self, 'stream_divergence', []) + [(rp, old['kind'], tuple(old['shape']), kind, shp)]
+                raise StreamDivergence('draw %d: first run %s%s, second run %s%s' % (rp, old['kind'], tuple(old['shape']), kind, shp))
+            self.replayed = getattr(self, 'replayed', 0) + 1
+            return old['value']
         k = len(self.draws)
         shape = tuple(int(s) for s in np.atleast_1d(shape)) if shape != () else ()
         if shape == ():
@@ -185,10 +200,11 @@ class Ctx:
             flat = list(val.ravel())
         for v in flat:
             if kind in ('rand', 'uniform01'):
-                self._add(z3.And(v.t >= 0, v.t < 1), assume=True)
+                lo = (v.t > 0) if getattr(self, 'rand_open_interval', False) else (v.t >= 0)
+                self._add(z3.And(lo, v.t < 1), assume=True)
             elif kind in ('exponential', 'gamma', 'chisquare'):
                 self._add(v.t > 0 if kind != 'exponential' else v.t >= 0, assume=True)
-        self.draws.append({'kind': kind, 'shape': shape, 'params': params, 'value': val})
+        self.draws.append({'kind': kind, 'base': kind, 'shape': shape, 'params': params, 'value': val})
         return val
 
     # ---- assumptions / path condition
@@ -440,7 +456,14 @@ class Ctx:
             if z3.is_app(a) and a.decl().eq(EXP):
                 res = res + _rv(k) * a.arg(0)
             else:
-                res = res + _rv(k) * LOG(_canon(a))
+                ca = _canon(a)
+                la = LOG(ca)
+                key = ('logax', la.get_id())
+                if key not in self._pos_cache:
+                    # sign facts of the logarithm, known to the branch solver as well
+                    self._pos_cache[key] = (True, la)
+                    self._add_def(z3.And(z3.Implies(ca < 1, la < 0), z3.Implies(ca == 1, la == 0), z3.Implies(ca > 1, la > 0)))
+                res = res + _rv(k) * la
         return res
 
     # ---- obligations
@@ -1402,13 +1425,21 @@ class ConcreteCtx:
         return out
 
     def draw(self, kind, shape=(), **params):
+        rp = getattr(self, '_replay_pos', None)
+        if rp is not None and rp < len(self.draws):
+            old = self.draws[rp]
+            self._replay_pos = rp + 1
+            shp = tuple(int(s_) for s_ in np.atleast_1d(shape)) if shape != () else ()
+            if old.get('base', old['kind']) != kind or tuple(old['shape']) != shp:
+                raise StreamDivergence('draw %d: first run %s%s, second run %s%s' % (rp, old['kind'], tuple(old['shape']), kind, shp))
+            return old['value']
         k = len(self.draws)
         shape = tuple(int(s) for s in np.atleast_1d(shape)) if shape != () else ()
         if shape == ():
             val = self.real('rnd%d_%s' % (k, kind))
         else:
             val = self.reals('rnd%d_%s' % (k, kind), *shape)
-        self.draws.append({'kind': kind, 'shape': shape, 'params': params, 'value': val})
+        self.draws.append({'kind': kind, 'base': kind, 'shape': shape, 'params': params, 'value': val})
         return val
 
     def assume(self, cond, text=None):
@@ -1993,3 +2024,12 @@ def gradient_of(c, expr, xs):
     for x in xs:
         out.append(SymReal(Differ(c, x).d(expr.t)))
     return out
+
+
+def _rewind(self, pos=0):
+    """Subsequent draws re-deliver the recorded stream from position `pos` (then continue with fresh draws)."""
+    self._replay_pos = pos
+
+
+Ctx.rewind_stream = _rewind
+ConcreteCtx.rewind_stream = _rewind
